@@ -614,8 +614,13 @@ def check_vector(c, ck, vec, tag, acc=None, lite=False):
     ndev = sum(1 for i in vec if i)
 
     # ---- lnprior ---------------------------------------------------------
-    lp = float(model.lnprior(pars))
     ck.trans += 1
+    try:
+        lp = float(model.lnprior(pars))
+    except Exception as e:                                   # noqa
+        ck.true("lnprior-computable", False, "lnprior raised %s: %s (%s)" %
+                (type(e).__name__, str(e)[:200], what))
+        return
     ck.true("lnprior-not-nan", lp == lp and lp != float("inf"),
             "lnprior is %r (%s)" % (lp, what))
     if cons is None and in_sup and valid:
